@@ -6,7 +6,7 @@ cd /verif
 RND=${ROUND:-}
 for x in A B; do
   src=/tmp/mut$RND-$p/out/$x; [ -f $src/patch.diff ] || continue
-  y=$x; if [ "$RND" = 2 ]; then if [ $x = A ]; then y=C; else y=D; fi; fi
+  y=$x; if [ "$RND" = 2 ]; then if [ $x = A ]; then y=C; else y=D; fi; fi; if [ "$RND" = 3 ]; then if [ $x = A ]; then y=E; else y=F; fi; fi
   d=seeded/$p-$y; if [ -n "${SKIPDONE:-}" ] && grep -q checks_run $d/meta.json 2>/dev/null; then continue; fi; mkdir -p $d; cp $src/* $d/ 2>/dev/null
   conf=$(tools/confirm_seeded.sh $d 2>&1 | tail -12)
   python3 tools/patch2overlay.py $d/patch.diff work/ov-$p-$y >/dev/null || { echo "$p-$x overlay failed"; continue; }
